@@ -1,6 +1,7 @@
 import BnpVerif.Model.C13
+import BnpVerif.Lemmas.C13Packed
 /-! C13 property theorems. Helper lemmas first; the property theorems are the ones listed in
-`Audit/C13.lean`. Core only. -/
+`Audit/C13.lean`. (`Lemmas/C13Packed.lean` holds the positional `hashLE` lemmas and the packed-path proof.) -/
 namespace C13
 variable {α β : Type}
 
@@ -128,18 +129,6 @@ theorem kmer_code (n : Nat) (letters : List Nat) : dot letters (powers n letters
   | cons x xs ih =>
     simp only [List.length_cons, powers_succ, dot, dot_map_mul, ih, hashLE, Nat.mul_one]
 
-theorem hashLE_lt (n : Nat) (letters : List Nat) (h : ∀ x ∈ letters, x < n) : hashLE n letters < n ^ letters.length := by
-  induction letters with
-  | nil => simp [hashLE]
-  | cons x xs ih =>
-    have h1 := ih (fun y hy => h y (by simp [hy]))
-    have h2 : x < n := h x (by simp)
-    simp only [hashLE, List.length_cons, Nat.pow_succ]
-    calc x + n * hashLE n xs < n + n * hashLE n xs := by omega
-      _ = n * (hashLE n xs + 1) := by rw [Nat.mul_add, Nat.mul_one, Nat.add_comm]
-      _ ≤ n * n ^ xs.length := Nat.mul_le_mul_left n h1
-      _ = n ^ xs.length * n := Nat.mul_comm _ _
-
 theorem wrap64_id (x : Nat) (h : x < 9223372036854775808) : wrap64 (x : Int) = x := by
   unfold wrap64
   have h1 : ((x : Int) % 18446744073709551616) = x := Int.emod_eq_of_lt (by omega) (by omega)
@@ -226,6 +215,51 @@ theorem kmers (n k : Nat) (hk : 1 ≤ k) (hr : n ^ k ≤ 9223372036854775808) (r
   intro win hmem hlen
   exact kmerHash_exact n win (fun x hx => hl r hr' x (hmem x hx)) (by rw [hlen]; exact hr)
 
+/-! ### the 2-bit packed path equals the generic path -/
+
+theorem windows_map {γ : Type} (w : Nat) (f : List α → β) (g : β → γ) (xs : List α) :
+    (windows w f xs).map g = windows w (fun win => g (f win)) xs := by
+  simp [windows, List.map_map, Function.comp_def]
+
+/-- **C13.packed_eq_generic** — for letters `< 4` and every `1 ≤ k ≤ 31`, the path `get_kmers` takes
+for 4-letter alphabets (pack two bits per letter into uint64 registers, shift/or/mask sliding
+window, re-wrap, trim) returns exactly what the generic dot-product path returns -/
+theorem packed_eq_generic (k : Nat) (hk1 : 1 ≤ k) (hk : k ≤ 31) (rows : List (List Nat))
+    (hl : ∀ r ∈ rows, ∀ x ∈ r, x < 4) : getKmersPacked k rows = getKmers 4 k rows := by
+  have hflat : ∀ x ∈ rows.flatten, x < 4 := by
+    intro x hx
+    obtain ⟨r, hr, hxr⟩ := List.mem_flatten.mp hx
+    exact hl r hr x hxr
+  unfold getKmersPacked getKmersPackedWith getKmers rolling rollingWith
+  have e : windows k (fun win => Int.ofNat (hashLE 4 win)) rows.flatten = windows k (kmerHash 4) rows.flatten := by
+    apply windows_congr
+    intro win hmem hlen
+    refine (kmerHash_exact 4 win (fun x hx => hflat x (hmem x hx)) ?_).symm
+    rw [hlen]
+    calc 4 ^ k ≤ 4 ^ 31 := Nat.pow_le_pow_right (by omega) hk
+      _ ≤ 9223372036854775808 := by decide
+  rw [packedKmers_eq _ hflat k hk1 hk, windows_map, List.append_nil, e]
+
+/-- **C13.kmers_dispatch** — whichever path `get_kmers` takes, every row gets the exact little-endian
+base-`n` number of each of its own windows (`n^k ≤ 2^63`; for `n = 4` that is `k ≤ 31`) -/
+theorem kmers_dispatch (n k : Nat) (hk : 1 ≤ k) (hr : n ^ k ≤ 9223372036854775808) (rows : List (List Nat))
+    (hl : ∀ r ∈ rows, ∀ x ∈ r, x < n) :
+    getKmersDispatch n k rows = spec k (fun win => (hashLE n win : Int)) rows := by
+  unfold getKmersDispatch
+  split
+  · rename_i h4
+    subst h4
+    have hk31 : k ≤ 31 := by
+      rcases Nat.lt_or_ge 31 k with h | h
+      · exfalso
+        have : (4 : Nat) ^ 32 ≤ 4 ^ k := Nat.pow_le_pow_right (by omega) h
+        have h32 : (4 : Nat) ^ 32 = 18446744073709551616 := by decide
+        omega
+      · exact h
+    rw [packed_eq_generic k hk hk31 rows hl]
+    exact kmers 4 k hk hr rows hl
+  · exact kmers n k hk hr rows hl
+
 /-! ### minimizers, string matching, counting: instances -/
 
 theorem mapM_minInt_map (l : List (List Int)) (h : ∀ x ∈ l, x ≠ []) :
@@ -311,6 +345,39 @@ theorem count (n k : Nat) (hk : 1 ≤ k) (hr : n ^ k ≤ 9223372036854775808) (r
   unfold countKmers countKmersRows specCountKmers
   rw [kmers n k hk hr rows hl]
   exact ⟨rfl, rfl⟩
+
+theorem bincount_getElem? (size : Nat) (vals : List Int) (c : Nat) (hc : c < size) :
+    (bincount size vals)[c]? = some (vals.count (c : Int)) := by
+  unfold bincount
+  rw [List.getElem?_map, List.getElem?_range hc]
+  simp only [Option.map_some, Option.some.injEq, List.count_eq_countP, List.countP_eq_length_filter]
+  congr 1
+
+/-- the label `get_labels` puts at position `code(kmer)` is that k-mer's text -/
+theorem label_of_code (alphabet : List Nat) (letters : List Nat) (hl : ∀ x ∈ letters, x < alphabet.length) :
+    (getLabels alphabet letters.length)[hashLE alphabet.length letters]? =
+      some (letters.map (fun d => alphabet.getD d 0)) := by
+  unfold getLabels
+  rw [List.getElem?_map, List.getElem?_range (hashLE_lt _ _ hl)]
+  simp only [Option.map_some, Option.some.injEq]
+  exact kmer_render alphabet letters hl
+
+/-- **C13.count_labeled** — what the caller of `count_kmers` reads off: the number reported under the
+label of a k-mer is the number of windows, inside rows only, that spell that k-mer (with `get_kmers`
+taking its real path, packed or generic) -/
+theorem count_labeled (alphabet : List Nat) (k : Nat) (hk : 1 ≤ k)
+    (hr : alphabet.length ^ k ≤ 9223372036854775808) (rows : List (List Nat))
+    (hl : ∀ r ∈ rows, ∀ x ∈ r, x < alphabet.length)
+    (kmer : List Nat) (hkl : kmer.length = k) (hkm : ∀ x ∈ kmer, x < alphabet.length) :
+    let lc := countKmersLabeled alphabet k rows
+    lc.1[hashLE alphabet.length kmer]? = some (kmer.map (fun d => alphabet.getD d 0)) ∧
+    lc.2[hashLE alphabet.length kmer]? =
+      some ((spec k (fun win => (hashLE alphabet.length win : Int)) rows).flatten.count
+        (hashLE alphabet.length kmer : Int)) := by
+  simp only [countKmersLabeled]
+  rw [kmers_dispatch alphabet.length k hk hr rows hl]
+  subst hkl
+  exact ⟨label_of_code alphabet kmer hkm, bincount_getElem? _ _ _ (hashLE_lt _ _ hkm)⟩
 
 /-- the shipped code counted nothing at `k = 1` -/
 theorem countOld_k1_unsound : countKmersOld 4 1 [[0, 1], [1]] = [0, 0, 0, 0] ∧
@@ -411,6 +478,8 @@ end pwm
 example : rolling 2 (fun (w : List Nat) => w) [[1, 2, 3], [], [4], [5, 6]] = [[[1, 2], [2, 3]], [], [], [[5, 6]]] := by decide
 example : getKmers 4 1 [[0, 3], [2]] = [[0, 3], [2]] := by decide +kernel
 example : getKmersOld 4 1 [[0, 3], [2]] = [[], []] := by decide +kernel
+example : getKmersPacked 2 [[0, 1, 2, 3], [3], [1, 0]] = [[4, 9, 14], [], [1]] := by decide +kernel
+example : (countKmersLabeled [65, 67] 2 [[0, 1, 1], [1]]).2 = [0, 0, 1, 1] := by decide +kernel
 example : minimizers 4 2 3 [[0, 1, 2, 3], [1]] = some [[4, 9], []] := by decide +kernel
 example : minimizersOld 4 1 2 [[0, 1, 2, 3], [1]] = none := by decide +kernel
 example : (5 : Nat) ^ 27 ≤ 9223372036854775808 ∧ (21 : Nat) ^ 14 ≤ 9223372036854775808 ∧ (4 : Nat) ^ 31 ≤ 9223372036854775808 := by decide
